@@ -242,7 +242,10 @@ fn tables_for(keys: &[&str], run: &mut Run) -> AtomTables {
     let mut tables = AtomTables::default();
     let keys: Vec<String> = keys.iter().map(|s| s.to_string()).collect();
     if let Err(e) = bridge::tabulate_atoms(&keys, &mut tables) {
-        run.violation(Violation { key: String::new(), summary: format!("cannot tabulate a named class through the public API: {e}"), replay: json!({"error": e}) });
+        // `\w` alone cannot be built or cannot be scanned over the string of all scalar values
+        // (build error, panic, or a token of more than one character): nothing below can be
+        // judged without it, and the failure itself is one of an input the properties quantify over
+        run.violation(Violation { key: String::new(), summary: format!("the one-pattern scanner `\\w` fails on the string of all scalar values: {e}"), replay: json!({"pattern": "\\w", "input": "every scalar value once, ascending", "error": e}) });
     }
     tables
 }
@@ -250,6 +253,9 @@ fn tables_for(keys: &[&str], run: &mut Run) -> AtomTables {
 pub fn run(prop: &'static str, tier: Tier) -> ! {
     let mut run = Run::new(prop, tier);
     let tables = tables_for(&["\\w"], &mut run);
+    if run.n_violations() > 0 {
+        run.finish("exploration", Map::new(), &[]);
+    }
     let mut total = Acc { samples: Samples::new(8), ..Default::default() };
     let mut families: Vec<Value> = vec![];
 
